@@ -596,6 +596,8 @@ class Case:
             if p is None:
                 return
             common.outcome(setattr, p.host, p.attr, dec(op["val"]))
+            if p.rname in self.env.shape_names or is_counted(p.container.retriever_map[p.rname]):
+                self.shape_edit = True          # the manager now holds a count / counted list of the history's making
             self.role(p.key, "m")
         elif k == "mrec":
             L = W.lists.get(op["list"])
@@ -924,7 +926,7 @@ def gen_phase(case, rng, inten, allow_shape):
     for slot, p in W.plains.items():
         if p.volatile or rng.random() >= pm:
             continue
-        if p.rname in case.env.shape_names and not allow_shape:
+        if (p.rname in case.env.shape_names or is_counted(p.container.retriever_map[p.rname])) and not allow_shape:
             continue
         v = alt_value(p.container.retriever_map[p.rname].datatype, p.mval, rng, small=rng.random() < 0.8)
         if v is not None:
@@ -1057,6 +1059,7 @@ def run(ctx):
             R.extra["driver"] = "unavailable (Lean build failed) - oracles only"
         rng = ctx.rng
         seen_sigs = {}
+        fam_cov, fam_all = {}, set()
         shrink_budget = [ctx.budget(30, 120)]      # seconds spent on minimising failing histories
         pending = []            # cases waiting for the driver batch
 
@@ -1103,6 +1106,12 @@ def run(ctx):
                            sample={"field": key, "clause": clause, "allow": int(cs.allow), "history": role} if nontriv else None)
                 else:
                     R.dist[t.split(":ValueError")[0][:60]] += 1
+            for t in cs.tags:
+                if isinstance(t, tuple) and t[3]:
+                    fam = t[1] if "[" not in t[1] else t[1].split("[")[0] + "[]" + t[1].split("]", 1)[1]
+                    fam_cov.setdefault((t[2], int(cs.allow)), set()).add(fam)
+                if isinstance(t, tuple):
+                    fam_all.add(t[1] if "[" not in t[1] else t[1].split("[")[0] + "[]" + t[1].split("]", 1)[1])
             R.dist["cases"] += 1
             R.dist[f"source={cs.source}"] += 1
             for sig, what in cs.violations:
@@ -1139,6 +1148,15 @@ def run(ctx):
             for ops in directed_histories():
                 cs = run_ops(env, allow, "base", fixed, ops)
                 account(cs, "directed")
+        # 2a. sweeps: EVERY field is assigned directly and every manager value is changed, both settings, with and
+        #     without the fields that dictate the shape of the file (the latter sweep is observed through the file)
+        for allow in (0, 1):
+            for allow_shape in (False, True):
+                cs = Case(env, allow, "base", fixed)
+                for inten in ((1.0, 1.0), (0.0, 1.0), (0.5, 0.5)):
+                    if not cs.ended:
+                        gen_phase(cs, rng, inten, allow_shape)
+                account(cs, "sweep")
         # 2b. links whose manager attribute cannot be read without changing it (UnitManager.next_unit_id on the pinned
         #     tree): only the clause that does not need the manager's value - setting off, the user's value is saved
         for (cls, attr) in sorted(env.volatile):
@@ -1183,6 +1201,8 @@ def run(ctx):
                 R.extra.setdefault("unmodelled", []).append(cs.ended)
             account(cs, f"random[{i}]")
         flush()
+        R.extra["field_families"] = len(fam_all)
+        R.extra["field_families_nontrivial_per_clause_and_setting"] = {f"{c}/allow={a}": len(v) for (c, a), v in sorted(fam_cov.items())}
         for sk, v in seen_sigs.items():
             R.violation(v["signature"], f"{v['what']}  [{v['count']} occurrence(s)]", v["replay"])
     finally:
